@@ -5,6 +5,15 @@ import json, os, re, subprocess, sys, tempfile, shutil
 V = os.path.dirname(os.path.dirname(os.path.abspath(__file__)))
 names = sys.argv[1:] or sorted(d for d in os.listdir(os.path.join(V, 'seeded')) if os.path.isdir(os.path.join(V, 'seeded', d)))
 wt = tempfile.mkdtemp(prefix='verif-seedwt-')
+# run from a private snapshot of the machinery, so that edits made to /verif while this (long) job runs cannot
+# change what is being checked
+snap = tempfile.mkdtemp(prefix='verif-seedsnap-')
+for item in ('vc', 'contracts', 'check', 'baseline_obligations.json', 'known_findings.txt', 'properties.jsonl'):
+    src = os.path.join(V, item)
+    if os.path.isdir(src):
+        shutil.copytree(src, os.path.join(snap, item), ignore=shutil.ignore_patterns('__pycache__'))
+    elif os.path.exists(src):
+        shutil.copy(src, os.path.join(snap, item))
 subprocess.run(['git', '-C', '/repo', 'worktree', 'add', '--detach', '-f', wt, 'HEAD'], check=True, capture_output=True)
 res_path = os.path.join(V, 'seeded', 'RESULTS.json')
 results = json.load(open(res_path)) if os.path.exists(res_path) else {}
@@ -16,7 +25,7 @@ try:
         if ap.returncode != 0:
             results[n] = dict(status='patch does not apply to current HEAD', detail=ap.stderr[-300:])
             continue
-        p = subprocess.run([os.path.join(V, 'check'), 'ALL', '--repo', wt], capture_output=True, text=True)
+        p = subprocess.run([os.path.join(snap, 'check'), 'ALL', '--repo', wt], capture_output=True, text=True)
         viol = sorted(set(re.findall(r'^VIOLATION property=(\S+) .*?obligation=(\S+)', p.stdout, re.M)))
         und = [l[:200] for l in p.stdout.splitlines() if l.startswith('UNDECIDED')]
         prop = json.load(open(os.path.join(d, 'meta.json'))).get('property')
@@ -27,4 +36,5 @@ try:
 finally:
     subprocess.run(['git', '-C', '/repo', 'worktree', 'remove', '--force', wt], capture_output=True)
     shutil.rmtree(wt, ignore_errors=True)
+    shutil.rmtree(snap, ignore_errors=True)
 json.dump(results, open(res_path, 'w'), indent=1, sort_keys=True)
